@@ -77,7 +77,22 @@ func balanceTrace(e *env) error {
 		if t%2 == 0 {
 			prefixFree++
 		}
+		// every third log: the SAME segment names as in every other such log and the book's amounts scaled by 2, 3 or -1
+		// (one process, the same food names, different books: state kept between reports would show); the single
+		// element itself is then not logged directly, so that every figure of the single-element tree is on one scale
+		ua := 1
 		segs := pickNames(rng, segPool, 4)
+		if t%3 == 2 {
+			ua = []int{2, 3, -1}[(t/3)%3]
+			segs = []string{"", segPool[0], segPool[1], segPool[2], segPool[3]}
+			kept := log[:0]
+			for _, p := range log {
+				if !(len(p) == 1 && p[0] == traceXName[0]) {
+					kept = append(kept, p)
+				}
+			}
+			log = kept
+		}
 		segID := map[string]int{}
 		for i := 1; i <= 4; i++ {
 			segID[segs[i]] = i
@@ -94,10 +109,34 @@ func balanceTrace(e *env) error {
 		cc := &concretiser{rng: rng}
 		xname := join(traceXName)
 		var book strings.Builder
-		for _, f := range traceXBook {
-			book.WriteString(join(f.Path) + ":\n")
-			book.WriteString(cc.entryLine("other", "1") + "\n")
-			book.WriteString(cc.entryLine(xname, fmtNum(float64(f.Amt), rng)) + "\n")
+		// half of the foods get their amount of the element through a nested recipe, next to other elements whose
+		// names sort before and after the element's (lines in random order): the resolved amount is the same
+		others := []string{"0 first", "M middle", "other", "zz last", "~ very last"}
+		for k, f := range traceXBook {
+			var lines, midLines []string
+			for _, o := range others {
+				switch rng.Intn(3) {
+				case 0:
+					lines = append(lines, cc.entryLine(o, "1"))
+				case 1:
+					midLines = append(midLines, cc.entryLine(o, "2"))
+				}
+			}
+			amt := cc.entryLine(xname, fmtNum(float64(f.Amt*ua), rng))
+			mid := fmt.Sprintf("zz mid %d", k)
+			nested := rng.Intn(2) == 0
+			if nested {
+				midLines = append(midLines, amt)
+				lines = append(lines, cc.entryLine(mid, "1"))
+			} else {
+				lines = append(lines, amt)
+			}
+			rng.Shuffle(len(lines), func(i, j int) { lines[i], lines[j] = lines[j], lines[i] })
+			rng.Shuffle(len(midLines), func(i, j int) { midLines[i], midLines[j] = midLines[j], midLines[i] })
+			book.WriteString(join(f.Path) + ":\n" + strings.Join(lines, "\n") + "\n")
+			if nested {
+				book.WriteString(mid + ":\n" + strings.Join(midLines, "\n") + "\n")
+			}
 		}
 		dayOf := func(i int) int { // Balance.tla DayOf, i = 1..
 			if 2*i <= len(log)+1 {
@@ -137,6 +176,9 @@ func balanceTrace(e *env) error {
 			}
 			toModel := func(milli int64) int {
 				u := int64(unit * 1000)
+				if strings.HasPrefix(tag, "s") { // single-element shapes: contributions = quantity x book amount
+					u *= int64(ua)
+				}
 				if milli%u != 0 {
 					return 987654321 // not a multiple of the unit: no specification value matches
 				}
